@@ -131,6 +131,7 @@ def _task(t):
     # replay candidates here (dedupe by label + witness)
     seen = set()
     nconf = dict(confirmed)
+    known_open = _known_open()
     for c in eng.candidates:
         key = (c.label, json.dumps(c.witness, sort_keys=True, default=str))
         if key in seen:
@@ -142,7 +143,12 @@ def _task(t):
             continue
         r = _run_replay(c.label, c.witness, timeout=6 if c.label == "termination" else 20)
         if r is not None and r[0] not in ("HARNESS-ERROR",):
-            nconf[c.label] = nconf.get(c.label, 0) + 1
+            # witnesses of a listed known finding must not use up the replay allowance of their obligation:
+            # another witness of the same obligation may be a different (unlisted) violation
+            k = c.label if r[0] not in known_open else (c.label, r[0])
+            nconf[k] = nconf.get(k, 0) + 1
+            if k != c.label and nconf[k] > 40:
+                nconf[c.label] = nconf.get(c.label, 0) + 1
         out["cands"].append(dict(label=c.label, witness=c.witness, detail=c.detail, replay=r))
     return out
 
@@ -153,6 +159,15 @@ def _short(v, n=200):
     except Exception:
         s = repr(v)
     return s if len(s) <= n else s[:n] + "..."
+
+
+_KNOWN_OPEN = []
+
+
+def _known_open():
+    if not _KNOWN_OPEN:
+        _KNOWN_OPEN.append({f["signature"] for f in load_known() if f.get("status") == "open"})
+    return _KNOWN_OPEN[0]
 
 
 def load_known():
@@ -270,7 +285,7 @@ def run_check(H, tier, seed, only_family=None, jobs=None, verbose=True):
                 for c in r["cands"]:
                     c["family"] = fams[fi].name
                     cands.append(c)
-                    if c["replay"] is not None and c["replay"][0] != "HARNESS-ERROR":
+                    if c["replay"] is not None and c["replay"][0] != "HARNESS-ERROR" and c["replay"][0] not in _known_open():
                         confirmed[c["label"]] = confirmed.get(c["label"], 0) + 1
                 for lp in r["leftovers"]:
                     queue.append((fi, lp))
